@@ -28,6 +28,8 @@ class Obligation:
         self.finding = d.get("finding", "")
         self.min_checks = int(d.get("min_checks", "1"))
         self.solver = d.get("solver", "")
+        # CBMC --max-field-sensitivity-array-size (default 64 loses constant propagation through Vec<Insn> of > 2 elements)
+        self.fs = int(d.get("fs", "1024"))
         # props: "C01,C04:t" -> {C01: quick, C04: thorough}
         self.props = {}
         for p in d.get("props", "").split(","):
